@@ -1156,6 +1156,7 @@ class Engine:
             raise Unsupported("setattr on python-side object")
         t = base.t
         fr = run.fresh_of(t)
+        run.stores_checked += 1
         if fr is not None and fr.kind == "obj":
             if fr.frozen:
                 raise Unsupported("write to frozen fresh object")
@@ -1758,6 +1759,7 @@ class Run:
         self.deadline = None
         self.prop_depth = 0
         self.spec_depth = 0
+        self.stores_checked = 0
         self.cur_line = None
         self.modifies = ()
         self.mod_bound = {}
